@@ -1079,9 +1079,9 @@ fn check(program: &Vec<CIns>, st: &mut Stats) -> CheckResult {
 fn run(cfg: &Cfg) -> Report {
     let mut rep = Report::new(
         cfg,
-        "proptest programs of 4-16 instructions generated as a typed AST: integer arithmetic, booleans, comparisons, strings with interpolation of numbers/booleans/strings, structs (fields given in any order, field access), lists (cons, cons_end, reverse, concat, head, tail, len, map with user functions), variables with top-level shadowing (also with a change of type), functions with 0-3 annotated parameters (function-valued parameters, parameters that shadow globals and unit names), where-clauses that depend on parameters and earlier where-variables, bounded recursion, redefinition of functions, function values bound to variables and called through them, reverse application. The AST is rendered to source and evaluated by numbat as one input, and evaluated directly by a reference evaluator (static scoping: a name in a function body means the binding visible where the function was defined; arguments, fields, list elements and string parts are evaluated left to right and keep source order). Oracle: same error kind (EmptyList) or same printed lines, same raw value of every global (innermost binding) and same final result. non-trivial = a call with >= 2 arguments, a struct with fields out of order or a nested conditional, together with a shadowed name; distinct = program text",
+        "proptest programs of 4-16 instructions generated as a typed AST: integer arithmetic, booleans, comparisons, strings with interpolation of numbers/booleans/strings, structs (fields written in any permutation of the declared order, field access), lists (cons, cons_end, reverse, concat, head, tail, len, map with user functions), variables with top-level shadowing (also with a change of type), functions with 0-3 annotated parameters (function-valued parameters, parameters that shadow globals and unit names), where-clauses that depend on parameters and earlier where-variables, bounded recursion, redefinition of functions, function values bound to variables and called through them, reverse application. The AST is rendered to source and evaluated by numbat as one input, and evaluated directly by a reference evaluator (static scoping: a name in a function body means the binding visible where the function was defined; arguments, fields, list elements and string parts are evaluated left to right and keep source order). Oracle: same error kind (EmptyList) or same printed lines, same raw value of every global (innermost binding) and same final result. non-trivial = a call with >= 2 arguments, a struct with fields out of order or a nested conditional, together with a shadowed name; distinct = program text",
     );
-    let cases = cfg.tier.pick(2000u32, 25000u32);
+    let cases = cfg.tier.pick(6000u32, 40000u32);
     rep.absorb(run_proptest(
         cfg,
         "programs",
